@@ -151,15 +151,17 @@ func (o *failOptions) run() error {
 
 	newCanaryERS := canaryERS.DeepCopy()
 
-	newCanaryERS.Status.Conditions = append(
-		newCanaryERS.Status.Conditions,
-		conditions.NewExtendedDaemonSetReplicaSetCondition(
-			v1alpha1.ConditionTypeCanaryFailed,
-			conditions.BoolToCondition(true),
-			metav1.Now(),
-			"Manually failed",
-			"",
-			true),
+	// Update the condition in place (it is appended only if absent): the controller reads the first
+	// Canary-Failed entry, so appending a second one after an earlier "False" entry had no effect.
+	conditions.UpdateExtendedDaemonSetReplicaSetStatusCondition(
+		&newCanaryERS.Status,
+		metav1.Now(),
+		v1alpha1.ConditionTypeCanaryFailed,
+		conditions.BoolToCondition(true),
+		"Manually failed",
+		"",
+		false,
+		true,
 	)
 	if err = o.client.Status().Update(context.TODO(), newCanaryERS); err != nil {
 		return fmt.Errorf("unable to update ERS status, err: %w", err)
